@@ -308,3 +308,86 @@ Definition out_n (o : outsel) (a : axis) : Z :=
 (* number of constructor calls between the input and the output *)
 Definition out_calls (o : outsel) : nat :=
   match o with ODerived => 2%nat | OFir passes => S passes | _ => 1%nat end.
+
+(* ------------------------------------------------------------------ re-use: set_input and shared method dicts *)
+(* Histories of analyzer objects (spectral.py SpectralAnalyzer.__init__/psd/cpsd/periodogram/
+   spectrum_fourier/spectrum_multi_taper; coherence.py CoherenceAnalyzer.__init__/spectrum/frequencies,
+   SparseCoherenceAnalyzer.__init__/cache/frequencies; base.py set_input).  A method dict is a shared
+   mutable cell that may or may not hold 'Fs'; an analyzer refers to a dict (its own fresh one when
+   constructed with method=None, or the caller's object) and to its current input.  `step` gives the
+   Fs the algorithm layer is called with by one read. *)
+Inductive acls := ASpectral | ACoherence | ASparse.
+Inductive attr :=
+| RPsd | RCpsd | RPeriodogram | RFourier | RMultiTaper       (* SpectralAnalyzer *)
+| RSpectrum | RFrequencies                                   (* CoherenceAnalyzer *)
+| RCache | RSparseFrequencies.                               (* SparseCoherenceAnalyzer *)
+Record analyzer := mk_an { an_cls : acls; an_dict : nat; an_input : series }.
+Record world := mk_world { w_dicts : list (option float); w_ans : list analyzer }.
+Inductive op :=
+| OpNewDict (fs : option float)               (* the caller makes a method dict, with or without 'Fs' *)
+| OpInit (c : acls) (d : option nat) (s : series)   (* d = None: method=None *)
+| OpSetInput (a : nat) (s : series)
+| OpRead (a : nat) (r : attr).
+
+Fixpoint set_nth {A} (l : list A) (i : nat) (x : A) : list A :=
+  match l, i with
+  | [], _ => []
+  | _ :: l', O => x :: l'
+  | y :: l', S i' => y :: set_nth l' i' x
+  end.
+
+Definition attr_of (c : acls) (r : attr) : bool :=
+  match c, r with
+  | ASpectral, (RPsd | RCpsd | RPeriodogram | RFourier | RMultiTaper) => true
+  | ACoherence, (RSpectrum | RFrequencies) => true
+  | ASparse, (RCache | RSparseFrequencies) => true
+  | _, _ => false
+  end.
+
+(* result of a step: the new world and, for a read, the Fs used together with the interval (ps) of the
+   analyzer's current input (for the comparison tolerance) *)
+Definition step (w : world) (o : op) : world * option (float * Z) :=
+  match o with
+  | OpNewDict fs => (mk_world (w_dicts w ++ [fs]) (w_ans w), None)
+  | OpInit c None s =>
+      (* method=None: all three classes make their own dict and store the input's rate in it *)
+      (mk_world (w_dicts w ++ [Some (s_fs s)]) (w_ans w ++ [mk_an c (length (w_dicts w)) s]), None)
+  | OpInit c (Some d) s =>
+      let ds := match c, nth_error (w_dicts w) d with
+                | ASpectral, _ => w_dicts w                      (* keeps the dict as it is *)
+                | _, Some None => set_nth (w_dicts w) d (Some (s_fs s))   (* method['Fs'] = method.get('Fs', rate) *)
+                | _, _ => w_dicts w
+                end in
+      (mk_world ds (w_ans w ++ [mk_an c d s]), None)
+  | OpSetInput a s =>
+      match nth_error (w_ans w) a with
+      | Some an => (mk_world (w_dicts w) (set_nth (w_ans w) a (mk_an (an_cls an) (an_dict an) s)), None)
+      | None => (w, None)
+      end
+  | OpRead a r =>
+      match nth_error (w_ans w) a with
+      | Some an =>
+          if attr_of (an_cls an) r then
+            let cur := s_fs (an_input an) in
+            let dt := ax_dt (s_axis (an_input an)) in
+            match an_cls an, r with
+            | ASpectral, RCpsd =>          (* welch_method['Fs'] = input rate, written into the dict *)
+                (mk_world (set_nth (w_dicts w) (an_dict an) (Some cur)) (w_ans w), Some (cur, dt))
+            | ASpectral, _ => (w, Some (cur, dt))        (* Fs = self.input.sampling_rate *)
+            | _, _ =>                      (* coherence family: method['Fs'], the snapshot *)
+                match nth_error (w_dicts w) (an_dict an) with
+                | Some (Some f) => (w, Some (f, dt))
+                | _ => (mk_world (set_nth (w_dicts w) (an_dict an) (Some cur)) (w_ans w), Some (cur, dt))
+                end
+            end
+          else (w, None)
+      | None => (w, None)
+      end
+  end.
+
+Fixpoint run_ops (w : world) (ops : list op) : list (option (float * Z)) :=
+  match ops with
+  | [] => []
+  | o :: ops' => let '(w', r) := step w o in r :: run_ops w' ops'
+  end.
+Definition world0 : world := mk_world [] [].
